@@ -14,7 +14,7 @@ import time
 VERIF = os.path.dirname(os.path.dirname(os.path.dirname(os.path.abspath(__file__))))
 REPO = os.environ.get("VERIF_REPO", "/repo")
 SCRATCH_ROOT = os.environ.get("VERIF_SCRATCH_ROOT", "/var/tmp")
-JOBS = int(os.environ.get("VERIF_JOBS", "12"))
+JOBS = int(os.environ.get("VERIF_JOBS", "8"))
 
 _scratch_dirs = []
 
